@@ -21,7 +21,7 @@ m = {
            "source_commits": hooks_commits, "add_only": True},
  "engines": [dict(name=k, path=v[0], kind_free_text=v[1], serves_properties=sorted(p for p, c in CHECKS.items() if k in c["engine"])) for k, v in engines.items()],
  "checks": [],
- "notes": "All checks: cwd=/verif, ./check <ID> [--tier quick|thorough]; exit 0 held / 1 VIOLATION / 2 harness error. known_findings.json lists recorded and fixed defects.",
+ "notes": "All checks: cwd=/verif, ./check <ID> [--tier quick|thorough] [--replay <file>]; exit 0 held (possibly KNOWN-FINDING lines) / 1 VIOLATION / 2 harness error. known_findings.json lists recorded (known) and repaired (fixed, with the /repo commit) defects; DESIGN.md section 8 is the build log (findings, seeded changes in /verif/seeded, oracle corrections). Every check imports pydra from /repo's working tree on each run (VT_REPO overrides the tree only for judging seeded changes in scratch worktrees).",
  "not_applicable": [],
 }
 for pid in ids:
